@@ -268,6 +268,17 @@ func clientBannedRule(c *an.Ctx) {
 				n++
 				kt := fi.Term(st.Val)
 				okB := false
+				// values this function itself stored into c.gcaServers (loads of the field forward to them)
+				stored := map[string]bool{}
+				for _, b2 := range fn.Blocks {
+					for _, in2 := range b2.Instrs {
+						if s2, ok := in2.(*ssa.Store); ok {
+							if fa2, ok := s2.Addr.(*ssa.FieldAddr); ok && fieldNameOf(fa2) == "gcaServers" && namedOfPtr(fa2.X.Type()) == "Client" && an.Dominates(s2, st) {
+								stored[fi.Term(s2.Val).Key()] = true
+							}
+						}
+					}
+				}
 				for _, f := range fi.FactsAt(st) {
 					// !fld:Banned(lk(ld(gcaServers), K))   (possibly as the negation inside an or-fact is not enough)
 					if !f.Neg {
@@ -276,6 +287,9 @@ func clientBannedRule(c *an.Ctx) {
 					t := f.T
 					if t.K == an.KField && t.S == "Banned" && t.A[0].K == an.KLookup {
 						if fld, _, ok := mapFieldOfTerm(t.A[0].A[0]); ok && fld == "gcaServers" && t.A[0].A[1].Key() == kt.Key() {
+							okB = true
+						}
+						if stored[t.A[0].A[0].Key()] && t.A[0].A[1].Key() == kt.Key() {
 							okB = true
 						}
 					}
